@@ -105,6 +105,25 @@ def assertPostSync (o : Oracle) (kw : Kwargs) : List Contract → Res (Option Ra
         pure (some e)
       else assertPostSync o kw cs
 
+/-- one class invariant (`_assert_invariant`): always evaluated synchronously - around `async def` methods too -
+with `self` as the only argument it may take; a coroutine result is rejected, as for every sync evaluation -/
+def evalInvariant (o : Oracle) (kw : Kwargs) (c : Contract) : Res Bool := do
+  let sel ← selectConditionKwargs c kw
+  Res.emit (.cond c.id sel)
+  match o.cond c.id with
+  | .coro _ => Res.raise (.valueErr (.coroCondOnSync c.id) none)
+  | a => judge c a
+
+/-- `for invariant in invariants: _assert_invariant(...)`: the first violated invariant raises its error -/
+def assertInvariants (o : Oracle) (kw : Kwargs) : List Contract → Res Unit
+  | [] => pure ()
+  | c :: cs => do
+      let notCheck ← evalInvariant o kw c
+      if notCheck then do
+        let e ← createViolationError o c kw
+        Res.raise e
+      else assertInvariants o kw cs
+
 def captureOldSync (o : Oracle) (kw : Kwargs) (acc : List (String × Id)) :
     List Snapshot → Res (List (String × Id))
   | [] => pure acc
